@@ -22,23 +22,20 @@ def run(tier):
     jobs += [chrun.Job(M, 'ancestry', to, subst={'PART = -1': f'PART = {p}'}, label=f'ancestry[node {p}]', twin=(p == 1)) for p in range(7)]
     jobs += [chrun.Job(M, 'at_offset', to, subst={} if q else {'LENMAX = 2': 'LENMAX = 3'})]
     nlexeme, nlex = (16, 3) if q else (32, 3)
-    jobs += pipe.jobs_for('vf/ch/pipeline.py', 'tree', nlexeme, nlex, 300 if q else 1500)
+    jobs += pipe.jobs_for('vf/ch/pipeline.py', 'tree', nlexeme, nlex, 300 if q else 1500, why='tree_why')
     res = chrun.run_jobs(jobs)
 
     def mk(res_):
-        if res_['func'] == 'tree' and res_.get('call'):
-            mod = chrun.load_module(res_['file'], 'c03_replay')
-            ks = eval(res_['call'].replace('tree(', '(lambda ks: ks)('), {})
-            text = mod._text(ks)
-            return dict(input=text, observed=mod.tree_why(text))
+        ex = res_.get('explain') or {}
+        if 'input' in ex:
+            return dict(input=ex['input'], observed=ex.get('why'),
+                        reproduce=f"cd /repo && /venv/bin/python -c \"import sqlparse; sqlparse.parse({ex['input']!r})[0]._pprint_tree()\"")
         return {}
 
     def classify(r):
-        if r['func'] == 'tree' and r.get('call'):
-            mod = chrun.load_module(r['file'], 'c03_cls')
-            ks = eval(r['call'].replace('tree(', '(lambda ks: ks)('), {})
-            why = mod.tree_why(mod._text(ks)) or ''
-            return 'tree:' + why.split(' ')[0] + ('-retyped' if 're-typed' in why else '')
+        why = (r.get('explain') or {}).get('why') or ''
+        if r['func'] == 'tree':
+            return 'tree:' + ('leaf-retyped' if 're-typed' in why else '-'.join(why.split(' ')[:3]))
         return r['func']
     chrun.settle(chk, res, classify=classify, make_replay=mk)
     fc = framecond.scan()
